@@ -45,6 +45,14 @@ def gen_c04(ctx):
     # silent inverter
     for (k, ka, r) in configs(True):
         out.append(base(k, ka, r, '', default='D', phases=[seq_reqs(2)]))
+    # exception frames with every kind of code -- the codes of the Modbus table, 0, codes without an entry, the high ones -- at once, after a lost
+    # transmission, and for reads, single and multiple writes: the request ends (rejected), it never hangs
+    for code in ([0, 2, 6, 9, 12, 128, 255] if not ctx.deep else list(range(0, 16)) + [127, 128, 200, 255]):
+        for (k, ka, r) in configs(False):
+            for pre in ('', 'D'):
+                if len(pre) > r: continue
+                for what in (('read',) if not ctx.deep else ('read', 'write', 'multi')):
+                    out.append(base(k, ka, r, list(pre) + [dict(exc=code)], default='N', phases=[[req(0, 0, reg=47000, count=2, what=what), req(1, 20000, reg=35100, count=2)]]))
     # TCP connect outcomes
     for cs in itertools.product(['ok', 'refused', 'unreach', 'hang'], repeat=2 if not ctx.deep else 3):
         for ka in (False, True):
